@@ -129,22 +129,31 @@ def interest_wire(comps, can_be_prefix=False, must_be_fresh=False, nonce=None, l
     return T.enc_tlv(5, name_wire(comps) + mid + tail)
 
 
-def lp_wrap(fragment, nack_reason=None, nack=False, pit_token=None, extra=(), frag_index=None, frag_count=None, trailing=()) -> bytes:
-    """LpPacket with headers in type-number order.  extra: list of (type, value-bytes)."""
+def lp_wrap(fragment, nack_reason=None, nack=False, pit_token=None, extra=(), frag_index=None, frag_count=None, trailing=(),
+            frag_after=None) -> bytes:
+    """LpPacket with headers in type-number order.  extra: list of (type, value-bytes).
+    frag_after=<type>: a sender that writes the fragmentation headers out of place - right behind the header of that type
+    (FRAGMENT: behind the payload)."""
     hdr = []
+    late = []
     if frag_index is not None:
-        hdr.append((FRAG_INDEX, T.enc_nni(frag_index)))
+        (late if frag_after is not None else hdr).append((FRAG_INDEX, T.enc_nni(frag_index)))
     if frag_count is not None:
-        hdr.append((FRAG_COUNT, T.enc_nni(frag_count)))
+        (late if frag_after is not None else hdr).append((FRAG_COUNT, T.enc_nni(frag_count)))
     if pit_token is not None:
         hdr.append((PIT_TOKEN, pit_token))
     if nack or nack_reason is not None:
         hdr.append((NACK, T.enc_tlv(NACK_REASON, T.enc_nni(nack_reason)) if nack_reason is not None else b''))
     hdr.extend(extra)
     hdr.sort(key=lambda h: h[0])   # NDNLPv2 / ndn-cxx: header fields in ascending type order, Fragment last
+    if late and frag_after != FRAGMENT:
+        at = max((i + 1 for i, h in enumerate(hdr) if h[0] == frag_after), default=len(hdr))
+        hdr[at:at] = late
+        late = []
     body = b''.join(T.enc_tlv(t, v) for t, v in hdr)
     if fragment is not None:
         body += T.enc_tlv(FRAGMENT, fragment)
+    body += b''.join(T.enc_tlv(t, v) for t, v in late)
     # (fields some sender put behind the Fragment: unrecognised ones are ignored wherever they stand)
     body += b''.join(T.enc_tlv(t, v) for t, v in trailing)
     return T.enc_tlv(LP_PACKET, body)
